@@ -7,7 +7,7 @@ from bounded import realrun
 from harness import loader
 from specs import lex
 
-LINES = ["a = 1", "b = 'x", "b = 'x&", "w = 'p &", "y'", "&", "  & c", "d &", "&e &", "! com", "", "f; g", "s = '!;&' // &", "   t = \"it's\" ! c;d", "&  z'", "q = ''''", "& y' ! c", "&n''t' // 'x' ! c;d"]
+LINES = ["a = 1", "b = 'x", "b = 'x&", "w = 'p &", "y'", "&", "  & c", "d &", "&e &", "! com", "", "f; g", "s = '!;&' // &", "   t = \"it's\" ! c;d", "&  z'", "q = ''''", "& y' ! c", "&n''t' // 'x' ! c;d", "u = \"it's &", "&so\" ! c;d"]
 
 
 class Invalid(Exception):
@@ -139,7 +139,7 @@ def lookahead_cases():
     return None
 
 
-LITERALS = ["''", "'a'", "'ab, c'", "'hello, world'", '"x"', '"it\'s, so"', "'a, b'", "'6\" wide, 2\" deep'", "'call helper(1), go'", '"a""b, c"', "'xxxx'", "'!;&'"]
+LITERALS = ["''", "'a'", "'ab, c'", "'hello, world'", '"x"', '"it\'s, so"', "'a, b'", "'6\" wide, 2\" deep'", "'call helper(1), go'", '"a""b, c"', "'xxxx'", "'!;&'", "'(a,i0,1x)'", '"x,y;z"']
 
 
 def parser_literal_cases():
